@@ -548,17 +548,38 @@ func c16Converters(c *Ctx) {
 			le := w.ent(lit)
 			// R2: appends to the []reflect.Value result
 			walkNoLit(lit.Body, func(n ast.Node) bool {
-				call, ok := n.(*ast.CallExpr)
-				if !ok || !isBuiltin(info, call, "append") || len(call.Args) != 2 {
-					return true
-				}
-				tv, ok := info.Types[call.Args[0]]
-				if !ok || typeStr(tv.Type) != "[]reflect.Value" {
+				// what is handed to the handler: appended to, or stored at an index of, the []reflect.Value list
+				var call ast.Node
+				var handed ast.Expr
+				switch y := n.(type) {
+				case *ast.CallExpr:
+					if !isBuiltin(info, y, "append") || len(y.Args) != 2 {
+						return true
+					}
+					tv, ok := info.Types[y.Args[0]]
+					if !ok || typeStr(tv.Type) != "[]reflect.Value" {
+						return true
+					}
+					call, handed = y, y.Args[1]
+				case *ast.AssignStmt:
+					if len(y.Lhs) != 1 || len(y.Rhs) != 1 || y.Tok != token.ASSIGN {
+						return true
+					}
+					ix, ok := unparen(y.Lhs[0]).(*ast.IndexExpr)
+					if !ok {
+						return true
+					}
+					tv, ok := info.Types[ix.X]
+					if !ok || typeStr(tv.Type) != "[]reflect.Value" {
+						return true
+					}
+					call, handed = y, y.Rhs[0]
+				default:
 					return true
 				}
 				nAppend++
 				key := lit.Name + "/append#" + itoa(nAppend)
-				appended := unparen(call.Args[1])
+				appended := unparen(handed)
 				for k := 0; k < 4; k++ { // a local bound once to the converted value
 					id := identOf(appended)
 					if id == nil {
@@ -571,7 +592,7 @@ func c16Converters(c *Ctx) {
 					appended = unparen(rhs)
 				}
 				conv, ok := appended.(*ast.CallExpr)
-				okC, why := false, "the appended argument is "+lx.str(call.Args[1])+", not a value converted to the declared parameter type: a parameter of a named type (type Level int) would make reflect.Value.Call panic"
+				okC, why := false, "the appended argument is "+lx.str(handed)+", not a value converted to the declared parameter type: a parameter of a named type (type Level int) would make reflect.Value.Call panic"
 				if ok {
 					if sel, ok := unparen(conv.Fun).(*ast.SelectorExpr); ok && sel.Sel.Name == "Convert" && len(conv.Args) == 1 {
 						src := lx.str(sel.X)        // <converter>(args[i])#0
@@ -624,6 +645,11 @@ func c16Converters(c *Ctx) {
 				switch {
 				case ts == "[]*variable.Value":
 					ok, how := le.proveIndexBelowLen(ix)
+					if !ok {
+						if ok3, how3 := liaBounds(w, lit, ix); ok3 {
+							ok, how = true, how3
+						}
+					}
 					if !ok {
 						// args[i] with i the key of a range over the converter slice: i < len(converters) = the filling
 						// loop's bound, and the length guard entails len(args) >= that bound
